@@ -618,6 +618,12 @@ func cpSpell(W, rel, spell string) (string, string) {
 		return W + "/./" + rel, W
 	case "nonrec":
 		return rel + "/.", W
+	case "nonrecdotslash": // non-recursive form with an unclean directory spelling: the listing keeps the spelling
+		return "./" + rel + "/.", W
+	case "nonrecdbl":
+		return rel + "//.", W
+	case "nonrecdotdot":
+		return rel + "/../" + filepath.Base(rel) + "/.", W
 	case "parent": // `..` from an (empty) sub-directory made for the purpose
 		os.MkdirAll(filepath.Join(W, rel, "zz"), 0o755)
 		return "..", filepath.Join(W, rel, "zz")
@@ -1308,6 +1314,15 @@ func cpGen(r *rand.Rand, tier string, n int, emit func(op string, tags ...string
 		}
 	}
 	emit("run kind=d fam=fx-none seed=1 lay=fileincwd spell=plain ospell=plain f=0 rm=1 nl=0 nd=0 j=1", "family:decompress-names")
+	// the same hazards through the NON-RECURSIVE form with unclean spellings of the directory (the file list then keeps
+	// the user's spelling, so every comparison of input and output names has to clean both sides)
+	for _, sp := range []string{"nonrec", "nonrecdotslash", "nonrecdbl", "nonrecdotdot"} {
+		for _, f := range []int{0, 1} {
+			emit(fmt.Sprintf("run kind=c fam=fx-shadow seed=1 lay=inplace spell=%s ospell=plain f=%d rm=0 nl=0 nd=0 j=1", sp, f), "family:shadow-nonrec")
+			emit(fmt.Sprintf("run kind=d fam=fx-dcollide seed=1 lay=inplace spell=%s ospell=plain f=%d rm=0 nl=0 nd=0 j=1", sp, f), "family:shadow-nonrec")
+			emit(fmt.Sprintf("run kind=rt fam=two seed=%d lay=outdir spell=%s ospell=plain f=%d rm=0 nl=0 nd=0 j=2", 7+f, sp, f), "family:shadow-nonrec")
+		}
+	}
 	for i := 0; i < nHaz; i++ {
 		switch r.Intn(4) {
 		case 0, 1:
